@@ -81,7 +81,7 @@ def showFinal (cfg : Cfg) (s : State) (n : Nat) : String :=
   " qdict=" ++ showNats (sortNat (s.qdict.map (·.1))) ++
   s!" dt={s.dt} count={s.count}" ++
   " exec=" ++ (if s.execLog.isEmpty then "_" else
-      ",".intercalate (s.execLog.map (fun e => s!"{e.1}@{e.2}"))) ++
+      ",".intercalate (s.execLog.map (fun e => s!"{e.1}@{e.2.1}"))) ++
   " finished=" ++ showNats fin ++
   " en=" ++ showTids (enabledSet cfg s n)
 
